@@ -7,6 +7,7 @@ mod build_gen;
 mod build_obs;
 mod build_oracle;
 mod build_render;
+mod build_slices;
 mod common;
 mod strings;
 mod suite_cmp;
